@@ -224,3 +224,170 @@ func GenDepartmentReclaimScript(t *rapid.T, prop string, o GenOpts) *Script {
 	s.Ops = genOps(t, o, &s.World)
 	return s
 }
+
+// GenSharedGPUScript: a directed profile for C02. One or two nodes whose GPUs are mostly shared already: every GPU
+// group has 1-3 sharers (fractions or gpu-memory), a share of them terminating, so that most groups have room only once
+// a terminating sharer is gone while a few have genuinely idle room; pending work is dominated by multi-device
+// fractional / gpu-memory pods that must pick several devices on one node, plus single-device and whole-GPU pods.
+func GenSharedGPUScript(t *rapid.T, prop string, o GenOpts) *Script {
+	s := &Script{Prop: prop, Profile: "shared-gpu-pressure"}
+	s.MapSeed = rapid.Uint64Range(1, 1<<62).Draw(t, "mapseed")
+	s.Config = genConfig(t, o)
+	byMem := chance(t, "sgmem", 35) // requests by gpu-memory instead of fraction
+	const devMem = 10000
+	nn := rapid.IntRange(1, 2).Draw(t, "sgnodes")
+	for i := 0; i < nn; i++ {
+		s.World.Nodes = append(s.World.Nodes, NodeSpec{Name: fmt.Sprintf("n%d", i), CPUm: 64000, MemMi: 262144, Pods: int64(pick(t, "sgpods", 110, 110, 12)),
+			GPUs: int64(pick(t, "sggpus", 2, 3, 4)), GPUMemMi: devMem})
+	}
+	nq := rapid.IntRange(1, 2).Draw(t, "sgqueues")
+	var leaves []string
+	for i := 0; i < nq; i++ {
+		q := QueueSpec{Name: fmt.Sprintf("q%d", i), GPU: QRes{Quota: pick(t, "sgquota", -1.0, -1.0, 1.0, 0.0), Limit: -1, Weight: 1},
+			CPU: QRes{Quota: -1, Limit: -1, Weight: 1}, Mem: QRes{Quota: -1, Limit: -1, Weight: 1}}
+		s.World.Queues = append(s.World.Queues, q)
+		leaves = append(leaves, q.Name)
+	}
+	s.World.PriorityClasses = []PriorityClassSpec{{"train", 50}, {"build", 100}, {"inference", 125}, {"low", 25}}
+	units := []int{25, 30, 50, 50, 70} // hundredths of a device
+	shape := func(p *PodSpec, u int) {
+		if byMem {
+			p.GPUMemMi = int64(u * devMem / 100)
+		} else {
+			p.Fraction = fmt.Sprintf("%.2f", float64(u)/100)
+		}
+	}
+	wi := 0
+	for _, n := range s.World.Nodes {
+		whole := 0
+		if chance(t, "sgwhole", 35) {
+			whole = 1
+			w := WorkloadSpec{Name: fmt.Sprintf("w%d", wi), Queue: pick(t, "wq", leaves...), MinMember: 1, AgeSec: 9000, PriorityClass: "train"}
+			w.Pods = []PodSpec{{Name: w.Name + "-p0", CPUm: 100, MemMi: 128, GPUs: 1, State: pick(t, "sgwstate", "running", "running", "terminating"), Node: n.Name}}
+			s.World.Workloads = append(s.World.Workloads, w)
+			wi++
+		}
+		idleGPUs := rapid.IntRange(0, 1).Draw(t, "sgidle")
+		for g := 0; g < int(n.GPUs)-whole-idleGPUs; g++ {
+			group := fmt.Sprintf("%s-g%d", n.Name, g)
+			used := 0
+			for k, ns := 0, rapid.IntRange(1, 3).Draw(t, "sgsharers"); k < ns; k++ {
+				u := pick(t, "sgunit", units...)
+				if used+u > 100 {
+					continue
+				}
+				used += u
+				w := WorkloadSpec{Name: fmt.Sprintf("w%d", wi), Queue: pick(t, "wq", leaves...), MinMember: 1, AgeSec: int64(8000 - wi), PriorityClass: pick(t, "pc", "train", "train", "build", "low")}
+				p := PodSpec{Name: w.Name + "-p0", CPUm: 100, MemMi: 128, State: "running", Node: n.Name, GPUGroups: []string{group}}
+				shape(&p, u)
+				if chance(t, "sgterm", 40) {
+					p.State = "terminating"
+				}
+				w.Pods = []PodSpec{p}
+				s.World.Workloads = append(s.World.Workloads, w)
+				wi++
+			}
+		}
+	}
+	for i, np := 0, rapid.IntRange(1, 4).Draw(t, "sgpending"); i < np; i++ {
+		w := WorkloadSpec{Name: fmt.Sprintf("w%d", wi), Queue: pick(t, "wq", leaves...), MinMember: 1, AgeSec: int64(rapid.IntRange(1, 5000).Draw(t, "age")), PriorityClass: pick(t, "pc", "train", "build", "inference", "low")}
+		p := PodSpec{Name: w.Name + "-p0", CPUm: 100, MemMi: 128, State: "pending"}
+		switch pick(t, "sgkind", "multi", "multi", "multi", "single", "whole") {
+		case "multi":
+			shape(&p, pick(t, "sgunit", units...))
+			p.NumDevices = int64(rapid.IntRange(2, 3).Draw(t, "sgndev"))
+		case "single":
+			shape(&p, pick(t, "sgunit", units...))
+		case "whole":
+			p.GPUs = 1
+		}
+		w.Pods = []PodSpec{p}
+		s.World.Workloads = append(s.World.Workloads, w)
+		wi++
+	}
+	s.Ops = genOps(t, o, &s.World)
+	if o.Faults {
+		s.Faults, s.BindFail = genFaults(t, o, &s.World)
+	}
+	return s
+}
+
+// GenProtectedElasticScript: a directed profile for C06. An elastic workload running exactly at its minimum (its surplus
+// pods are pending: the queue is at its GPU limit), one pod per node so that every node keeps a little idle capacity
+// (fragmentation), still inside or just outside its queue's min-runtime; a reclaimer of a starved queue and/or a
+// higher-priority preemptor of the same queue need more GPUs on one node than any node has idle, so that the only
+// scenarios are the ones that evict or move core pods of the protected workload.
+func GenProtectedElasticScript(t *rapid.T, prop string, o GenOpts) *Script {
+	s := &Script{Prop: prop, Profile: "protected-elastic-fragmented"}
+	s.MapSeed = rapid.Uint64Range(1, 1<<62).Draw(t, "mapseed")
+	s.Config = genConfig(t, o)
+	s.Config.Actions = []string{"allocate", "consolidation", "reclaim", "preempt", "stalegangeviction"}
+	s.Config.ConsolidatingReclaim = chance(t, "pecons", 80)
+	nn := rapid.IntRange(2, 3).Draw(t, "penodes")
+	g := int64(pick(t, "pegpus", 2, 2, 3, 4))
+	for i := 0; i < nn; i++ {
+		s.World.Nodes = append(s.World.Nodes, NodeSpec{Name: fmt.Sprintf("n%d", i), CPUm: 64000, MemMi: 262144, Pods: 110, GPUs: g})
+	}
+	min := int32(rapid.IntRange(1, nn).Draw(t, "pemin"))
+	mr := pick(t, "pemr", "10m", "10m", "2h", "30s")
+	qa := QueueSpec{Name: "qa", GPU: QRes{Quota: float64(rapid.IntRange(0, int(min)).Draw(t, "peqaquota")), Limit: float64(min), Weight: 1},
+		CPU: QRes{Quota: -1, Limit: -1, Weight: 1}, Mem: QRes{Quota: -1, Limit: -1, Weight: 1}, ReclaimMinRuntime: mr, PreemptMinRuntime: mr}
+	if chance(t, "penolimit", 25) {
+		qa.GPU.Limit = -1
+	}
+	qb := QueueSpec{Name: "qb", GPU: QRes{Quota: float64(nn) * float64(g), Limit: -1, Weight: 1},
+		CPU: QRes{Quota: -1, Limit: -1, Weight: 1}, Mem: QRes{Quota: -1, Limit: -1, Weight: 1}}
+	s.World.Queues = []QueueSpec{qa, qb}
+	s.World.PriorityClasses = []PriorityClassSpec{{"train", 50}, {"build", 100}, {"inference", 125}, {"low", 25}}
+	// the protected elastic workload
+	e := WorkloadSpec{Name: "e0", Queue: "qa", MinMember: min, AgeSec: 9000, PriorityClass: pick(t, "pepc", "train", "low")}
+	ago := int64(pick(t, "pestart", 60, 60, 20, 3600, 100000))
+	e.LastStartAgo = &ago
+	surplus := rapid.IntRange(1, 2).Draw(t, "pesurplus")
+	for i := 0; i < int(min)+surplus; i++ {
+		p := PodSpec{Name: fmt.Sprintf("e0-p%d", i), CPUm: 100, MemMi: 128, GPUs: 1, State: "pending"}
+		if i < int(min) {
+			p.State, p.Node = "running", fmt.Sprintf("n%d", i%nn)
+		}
+		e.Pods = append(e.Pods, p)
+	}
+	if chance(t, "peabove", 20) && len(e.Pods) > int(min) { // sometimes one surplus pod runs too (a legal elastic shrink exists)
+		e.Pods[min].State, e.Pods[min].Node = "running", fmt.Sprintf("n%d", int(min)%nn)
+	}
+	s.World.Workloads = append(s.World.Workloads, e)
+	// fillers of the starved queue's competitor so that nodes keep exactly a little idle room
+	used := map[string]int64{}
+	for _, p := range e.Pods {
+		if p.Node != "" {
+			used[p.Node]++
+		}
+	}
+	fi := 0
+	for i := 0; i < nn; i++ {
+		n := fmt.Sprintf("n%d", i)
+		idle := int64(rapid.IntRange(0, int(g-used[n])).Draw(t, "peidle"))
+		for used[n]+idle < g {
+			w := WorkloadSpec{Name: fmt.Sprintf("f%d", fi), Queue: "qb", MinMember: 1, AgeSec: int64(8000 - fi), PriorityClass: pick(t, "pefpc", "build", "train")}
+			w.Pods = []PodSpec{{Name: w.Name + "-p0", CPUm: 100, MemMi: 128, GPUs: 1, State: "running", Node: n}}
+			s.World.Workloads = append(s.World.Workloads, w)
+			used[n]++
+			fi++
+		}
+	}
+	// the workloads that want capacity
+	if chance(t, "pereclaimer", 75) {
+		w := WorkloadSpec{Name: "r0", Queue: "qb", MinMember: 1, AgeSec: 100, PriorityClass: "train"}
+		w.Pods = []PodSpec{{Name: "r0-p0", CPUm: 100, MemMi: 128, GPUs: int64(rapid.IntRange(1, int(g)).Draw(t, "pergpus")), State: "pending"}}
+		s.World.Workloads = append(s.World.Workloads, w)
+	}
+	if chance(t, "pepreemptor", 50) {
+		w := WorkloadSpec{Name: "h0", Queue: "qa", MinMember: 1, AgeSec: 50, PriorityClass: pick(t, "pehpc", "train", "inference"), Preemptibility: "preemptible"}
+		w.Pods = []PodSpec{{Name: "h0-p0", CPUm: 100, MemMi: 128, GPUs: int64(rapid.IntRange(1, int(g)).Draw(t, "pehgpus")), State: "pending"}}
+		s.World.Workloads = append(s.World.Workloads, w)
+	}
+	s.Ops = []Op{{Kind: "cycle"}, {Kind: "binder"}, {Kind: "kubelet"}}
+	if chance(t, "pemore", 50) {
+		s.Ops = append(s.Ops, Op{Kind: "advance", N: pick(t, "peadv", 1, 61, 700)}, Op{Kind: "cycle"}, Op{Kind: "binder"}, Op{Kind: "kubelet"})
+	}
+	return s
+}
